@@ -557,7 +557,7 @@ package tree
 
 //@ func (*sharedEntryAttributes).getRegularDeletes
 //@   props C01
-//@   requires s != nil && s.childs != nil && s.cacheMutex != nil
+//@   requires s != nil && s.childs != nil && s.cacheMutex != nil && s.leafVariants != nil && lvOK(s.leafVariants)
 //@   requires allstr(k, present(s.choicesResolvers, k) ==> s.choicesResolvers[k] != nil && resolverOK(s.choicesResolvers[k]))
 //@   requires allstr(k, present(s.childs.c, k) ==> s.childs.c[k] != nil)
 //@   let acc = deletes
